@@ -47,21 +47,23 @@ BORDERS = {
 CENTRE = (1.5, -2.25)
 
 BOUNDS = {
-    "quick": "relocation kernel: relocated points symbolic reals (1 or 2 points per call), border = listed concrete point sets "
+    "quick": "relocation kernel: relocated points symbolic reals (1 point per call; 2 points for four of the borders), border = the 11 listed concrete point sets "
              "(1-8 points: convex, non-convex, asymmetric, duplicate point, degenerate 1/2-point borders; centroid off the origin; each at scale 1 and 1/16 so that "
-             "minimum radii below and above 1 occur); sub-border indices: all masks (>=1 unmasked pixel) of every shape with <= 9 pixels plus 3x4/4x3, uniform sub-size 1..3, "
-             "every sub-size map over {1,2,3} for shapes with <= 6 pixels, pixel scales (>0) and origin of the sub-border grid symbolic; "
-             "BorderRelocator / mesh entry points: all masks of shapes with <= 6 pixels, sub-size 1 and 2, one symbolic data-grid point and one symbolic mesh vertex, "
-             "remaining data-grid points (incl. the border) concrete image-plane sub-pixel centres with dyadic scales",
-    "thorough": "kernel: additionally 3 symbolic points for the small borders and scales 1/4 and 4; sub-border indices: all masks of shapes with <= 12 pixels, uniform sub-size 1..4, "
-                "all sub-size maps over {1,2,3} for shapes with <= 8 pixels; classes: all masks of shapes with <= 9 pixels, sub-size 1..3",
+             "minimum radii below and above 1 occur). Sub-border indices: all masks (>=1 unmasked pixel) of every shape with <= 9 pixels, uniform sub-size 1..3 "
+             "(int, ndarray and Array2D forms), 3x4 with sub-size 2, every sub-size map over {1,2,3} for shapes with <= 4 pixels and over {1,2} for 2x3/3x2; pixel scales (>0) "
+             "and origin of the sub-border grid symbolic reals. BorderRelocator / Rectangular / Delaunay entry points: all masks of shapes with <= 4 pixels plus a 5x5 annulus "
+             "and a 3x4 L-shape, sub-size 1 and 2; one symbolic data-grid point or one symbolic mesh vertex per run, the other data-grid points concrete; the source-plane "
+             "border (the data grid at the sub-border indices) is a concrete exact-radius point set of the right size",
+    "thorough": "kernel: scales 1, 1/16, 1/4, 4; 2 symbolic points for six borders, 3 for two; sub-border indices: uniform sub-size 1..4 for shapes with <= 9 pixels, "
+                "sub-size 2..3 for 3x4, 4x3, 2x5, 5x2; all sub-size maps over {1,2,3} for shapes with <= 6 pixels and over {1,2} for 2x4/4x2; classes: all masks of shapes "
+                "with <= 6 pixels (sub-size 1..3 up to 4 pixels, 2 above), three named larger masks",
 }
 OUTSIDE = [
     "symbolic border points (nested sqrt / symbolic mean / argmin: the solver does not return) - borders are the listed concrete sets and the real borders of the small masks",
     "for border sets with irrational radii (irr_* sets, mask borders): points whose squared radius is within a relative 1e-9 of the squared minimum border radius "
     "(the 'unchanged' / 'relocated' clauses are not claimed inside that band; the ray / inward / max-radius clauses are claimed everywhere)",
-    "the relocated point coinciding with the centroid of a border whose minimum radius is 0 (division 0/0 inside the kernel; the real-arithmetic model excludes the divisor 0)",
-    "masks larger than the stated shapes; sub-sizes above 4",
+    "masks larger than the stated shapes; sub-sizes above 4; more than 3 relocated points per call (points are processed independently by the kernel loop)",
+    "preloads.relocated_grid (a stored grid is returned as is)",
     "which pixels are border pixels (property C10): the border pixel list is taken from mask_2d_util.border_slim_indexes_from",
 ]
 STUBS = ["scipy.spatial.Delaunay is never reached (Mesh2DDelaunay is constructed lazily; only the relocated grids of MapperGrids are read)"]
@@ -105,7 +107,29 @@ def POST_INSTALL():
                 return "unsat", None
         return "unknown", None
 
+    orig_twin = explore.Explorer.twin
+
+    def twin(self):
+        r, m = orig_twin(self)
+        if r != "unknown":
+            return r, m
+        for logic, seed, tmo in (("QF_NRA", 1, 20000), (None, 7, 30000), ("QF_NRA", 3, 120000)):
+            sol = z3.SolverFor(logic) if logic else z3.Solver()
+            sol.set("timeout", tmo)
+            sol.set("random_seed", seed)
+            sol.add(*self.constraints)
+            res = str(sol.check())
+            self.stats.queries += 1
+            if res == "sat":
+                self.stats.twins_sat += 1
+                self.model = sol.model()
+                return "sat", self.model
+            if res == "unsat":
+                return "unsat", None
+        return "unknown", None
+
     explore.Explorer._check_sliced = check_sliced
+    explore.Explorer.twin = twin
     explore.Explorer._c18_retry = True
 
 
@@ -465,6 +489,8 @@ def body_class(inp, H, W, s, kind, which, named=None):
         relocation_obligations(A, E, "rectangular.data_grid.", data, mg, B, True, sym)
         ab = hx.attempt(lambda: rect.relocated_grid_from(border_relocator=br, source_plane_data_grid=data_grid))
         relocation_obligations(A, E, "mesh.relocated_grid_from.", data, ab, B, True, sym)
+        A["mesh.no_relocator_returns_input"] = hx.attempt(lambda: rect.relocated_grid_from(border_relocator=None, source_plane_data_grid=data_grid) is data_grid)
+        E["mesh.no_relocator_returns_input"] = True
     else:
         out = hx.attempt(lambda: br.relocated_mesh_grid_from(grid=data_grid, mesh_grid=mesh_grid))
         relocation_obligations(A, E, "relocator.mesh.", mesh_pts, out, B, True, sym)
@@ -477,6 +503,9 @@ def body_class(inp, H, W, s, kind, which, named=None):
             relocation_obligations(A, E, "delaunay.mesh_grid.", mesh_pts, mgs.source_plane_mesh_grid, B, True, sym)
         ab = hx.attempt(lambda: dl.relocated_mesh_grid_from(border_relocator=br, source_plane_data_grid=data_grid, source_plane_mesh_grid=mesh_grid))
         relocation_obligations(A, E, "mesh.relocated_mesh_grid_from.", mesh_pts, ab, B, True, sym)
+        A["mesh.no_relocator_returns_input"] = hx.attempt(
+            lambda: dl.relocated_mesh_grid_from(border_relocator=None, source_plane_data_grid=data_grid, source_plane_mesh_grid=mesh_grid) is mesh_grid)
+        E["mesh.no_relocator_returns_input"] = True
     return A, E
 
 
@@ -523,7 +552,7 @@ def cases(tier):
         n = H * W
         out.append(("case_subborder", {"H": H, "W": W, "smax": 3 if quick else 4, "maps": "uniform", "api": "int" if (H + W) % 2 else "array"},
                     {"split": 0 if n < 8 else 2}))
-    for (H, W) in ([(3, 4)] if quick else [(3, 4), (4, 3), (2, 5), (5, 2), (2, 6), (6, 2)]):
+    for (H, W) in ([(3, 4)] if quick else [(3, 4), (4, 3), (2, 5), (5, 2)]):
         out.append(("case_subborder", {"H": H, "W": W, "smin": 2, "smax": 2 if quick else 3, "maps": "uniform", "api": "array"}, {"split": 5}))
     # every sub-size map
     for (H, W) in _shapes(4 if quick else 6):
@@ -531,11 +560,11 @@ def cases(tier):
         if n >= 2:
             out.append(("case_subborder", {"H": H, "W": W, "smax": 3, "maps": "all", "api": "array2d" if (H + W) % 2 else "array"},
                         {"split": 0 if n < 6 else 4}))
-    for (H, W) in ([(2, 3), (3, 2)] if quick else [(2, 4), (4, 2), (1, 7), (7, 1), (1, 8), (8, 1)]):
+    for (H, W) in ([(2, 3), (3, 2)] if quick else [(2, 4), (4, 2)]):
         out.append(("case_subborder", {"H": H, "W": W, "smax": 2, "maps": "all", "api": "array"}, {"split": 2 if quick else 4}))
     # relocator / mesh entry points
     for (H, W) in _shapes(4 if quick else 6):
-        for s in ((1, 2) if quick else (1, 2, 3)):
+        for s in ((1, 2) if quick else ((1, 2, 3) if H * W <= 4 else (2,))):
             for which in ("grid", "mesh"):
                 kind = (H + W + s) % 2
                 out.append(("case_class", {"H": H, "W": W, "s": s, "kind": kind, "which": which, "named": None}, {"split": 0 if H * W < 6 else 2}))
